@@ -10,6 +10,8 @@ import PortusModel.Props.C13
 import PortusModel.Props.C14
 import PortusModel.Props.C03
 import PortusModel.Rt.Obs
+import PortusModel.Props.C01
+import PortusModel.Driver.Vm
 import PortusModel.Driver.Lang
 /-! `ORC <id> Cnn <input> <observed…>`: evaluate the property oracle `Cnn.check` on behaviour observed
 from the implementation. Answers `PASS` or `FAIL`. -/
@@ -265,6 +267,49 @@ def orcC05 (args : List String) : String :=
     match n.toNat? with
     | some n => orcTrace (Rt.checkC05 n) tr
     | none => "BADARG"
+  | _ => "BADARG"
+
+/-- the inputs (clock + primitives) of the `I` ops of a VM script -/
+def vmInputs (ops : List (List String)) : Option (List Vm.Env) :=
+  let rec go (ops : List (List String)) (now : Vm.Val) (acc : List Vm.Env) : Option (List Vm.Env) :=
+    match ops with
+    | [] => some acc.reverse
+    | ["T", n] :: rest => (u64? n).bind fun n => go rest (UInt64.ofNat n) acc
+    | ["I", _, cwnd, rate, ps] :: rest =>
+      match u64? cwnd, u64? rate, (ps.splitOn ",").mapM u64? with
+      | some c, some r, some ps => go rest now ({ now := now, timeZero := 0, prims := mkPrims c r ps } :: acc)
+      | _, _, _ => none
+    | _ :: rest => go rest now acc
+  go ops 0 []
+
+def parseIObs (toks : List String) : Option C01.IObs :=
+  match toks with
+  | ["I", rc, c, r, sent] => do
+    let rcv : Int ← rc.toInt?
+    if rcv < 0 then some (.fault rcv) else
+    let cv ← (if c = "c=-" then some none else ((c.drop 2).toString.toNat?).map some)
+    let rv ← (if r = "r=-" then some none else ((r.drop 2).toString.toNat?).map some)
+    let rep ← (if sent = "-" then some none else do
+      let b ← fromHex sent
+      let n := rd32 (b.drop 12)
+      some (some ((List.range n).map fun i => rd64 (b.drop (16 + 8 * i)))))
+    some (.done cv rv rep)
+  | _ => none
+
+def orcC01 (args : List String) : String :=
+  match splitAt "@@" args with
+  | [[src, upd], ops, obs] =>
+    match fromHex src, parseNamedUpdates upd, vmInputs (splitSemi ops) with
+    | some srcb, some upd, some inputs =>
+      match utf8Decode srcb with
+      | none => "PASS"
+      | some cps =>
+        let parts := (splitAt "|" obs).filter fun p => p.head? = some "I"
+        match parts.mapM parseIObs with
+        | some os => passFail (C01.check (cps.map Char.ofNat) upd inputs os) ++ " " ++
+            C01.fragment (cps.map Char.ofNat) upd inputs
+        | none => "FAIL unparsable-observation"
+    | _, _, _ => "BADARG"
   | _ => "BADARG"
 
 end Portus.Driver
